@@ -60,6 +60,7 @@ type Exec struct {
 	joins    []*joinCollector
 	ipdoms   map[*ssa.Function]map[*ssa.BasicBlock]*ssa.BasicBlock
 	noMerge  bool
+	prop     string // property being checked
 }
 
 type cont func(s *State, results []Val)
@@ -299,32 +300,42 @@ func (x *Exec) assumeIfaceInv(s *State, v T, t types.Type) {
 		}
 	}
 	s.assume(Implies(mk(SBool, "(_ is iref)", v), mk(SBool, ">=", mk(SInt, "iptr", v), IntLit(0))))
-	// no typed-nil package pointers inside interfaces (checked where they are boxed: nonnil-box)
+	// no typed-nil package pointers inside interfaces (checked where they are boxed: nonnil-box),
+	// and the object they point to exists
+	al := x.heapSym(s, "alloc", SArray(SInt, SBool))
+	var ptrAlts []T
 	for _, ct := range x.p.concrete {
 		if _, ok := ct.(*types.Pointer); ok && x.p.isPackageType(ct) {
 			if it.NumMethods() > 0 && !types.Implements(ct, it) {
 				continue
 			}
-			s.assume(Implies(x.isType(v, ct), Not(Eq(mk(SInt, "iptr", v), IntLit(0)))))
+			ptrAlts = append(ptrAlts, x.isType(v, ct))
 		}
 	}
-	// invariants of package pointer types that can be inside
+	if len(ptrAlts) > 0 {
+		// ... and an object has one type: the tag of the interface value is the type of the object
+		s.assume(Implies(Or(ptrAlts...), And(Not(Eq(mk(SInt, "iptr", v), IntLit(0))), Select(al, mk(SInt, "iptr", v), SBool),
+			Eq(mk(SInt, "objtype", mk(SInt, "iptr", v)), mk(SInt, "itag", v)))))
+	}
+	// values of empty struct types carry no payload
 	for _, ct := range x.p.concrete {
-		pt, ok := ct.(*types.Pointer)
-		if !ok {
-			continue
+		if st, ok := ct.Underlying().(*types.Struct); ok && st.NumFields() == 0 {
+			if it.NumMethods() > 0 && !types.Implements(ct, it) {
+				continue
+			}
+			s.assume(Implies(x.isType(v, ct), Eq(mk(SInt, "iptr", v), IntLit(0))))
 		}
-		if it.NumMethods() > 0 && !types.Implements(ct, it) {
-			continue
+	}
+	// small closed interfaces (parse-tree nodes): the invariant of whichever type is inside
+	if impls, closed := x.p.closedImpls(t); closed && len(impls) <= 10 {
+		for _, ct := range impls {
+			pt, ok := ct.(*types.Pointer)
+			if !ok || len(x.p.Ctr.Invs[typeStr(pt.Elem())]) == 0 {
+				continue
+			}
+			ref := mk(SInt, "iptr", v)
+			s.assume(Implies(x.isType(v, ct), x.invTerm(s, ref, pt.Elem())))
 		}
-		invs := x.p.Ctr.Invs[typeStr(pt.Elem())]
-		if len(invs) == 0 {
-			continue
-		}
-		isT := And(mk(SBool, "(_ is iref)", v), Eq(mk(SInt, "itag", v), IntLit(int64(x.p.tag(ct)))))
-		ref := mk(SInt, "iptr", v)
-		body := x.invTerm(s, ref, pt.Elem())
-		s.assume(Implies(And(isT, Not(Eq(ref, IntLit(0)))), body))
 	}
 }
 
